@@ -4,6 +4,9 @@ and compares the passes with /root/.vp/BASELINE.json's stable_pass list."""
 import json, os, subprocess, sys, tempfile, xml.etree.ElementTree as ET
 base = json.load(open("/root/.vp/BASELINE.json"))
 want = set(base["stable_pass"])
+prefix = os.environ.get("BASELINE_PREFIX")      # e.g. lib.Crypto.SelfTest.Math  (with a matching path argument)
+if prefix:
+    want = {w for w in want if w.startswith(prefix)}
 out = tempfile.mktemp(suffix=".xml", dir="/tmp")
 cmd = ["/venv/bin/python", "-m", "pytest", "-q", "-p", "no:cacheprovider", "--timeout=900",
        "--continue-on-collection-errors", "-n", "16", "--junitxml=" + out] + sys.argv[1:]
